@@ -7,6 +7,8 @@
 #include <verif.hpp>
 #include <tracked.hpp>
 
+#include <atomic>
+
 #include <tlx/sort/parallel_mergesort.hpp>
 
 using verif::Rng;
@@ -17,8 +19,14 @@ VERIF_MISLEADING_ORDER(KV, key)
 VERIF_MISLEADING_EQUALITY(KV, key)
 struct KVLess { bool operator()(const KV& a, const KV& b) const { return a.key < b.key; } };
 struct KVGreater { bool operator()(const KV& a, const KV& b) const { return a.key > b.key; } };
-struct TLess { bool operator()(const Tracked& a, const Tracked& b) const { return a.key < b.key; } };
-struct TGreater { bool operator()(const Tracked& a, const Tracked& b) const { return a.key > b.key; } };
+// The comparator is only ever to be called on elements of the input (or copies of them): a moved-from
+// Tracked carries a poison key, and seeing one here is recorded (relaxed: no ordering added).
+static std::atomic<unsigned> g_cmp_on_moved_from{ 0 };
+static inline void cmp_sees(const Tracked& a, const Tracked& b) {
+    if (a.key == Tracked::MOVED_FROM || b.key == Tracked::MOVED_FROM) g_cmp_on_moved_from.fetch_add(1, std::memory_order_relaxed);
+}
+struct TLess { bool operator()(const Tracked& a, const Tracked& b) const { cmp_sees(a, b); return a.key < b.key; } };
+struct TGreater { bool operator()(const Tracked& a, const Tracked& b) const { cmp_sees(a, b); return a.key > b.key; } };
 
 template <typename E> struct Tr;
 template <> struct Tr<KV> {
@@ -87,6 +95,7 @@ static void one_sort(Rng& rng, size_t n, int shape, bool big) {
         scen = what;
         dsched::S().context = stable ? "stable_parallel_mergesort" : "parallel_mergesort";
         dsched::S().on_deadlock = []() { fprintf(stderr, "scenario: %s\n", scen.c_str()); };
+        dsched::S().spurious_den = rng.chance(1, 3) ? 8 : 0;   // a third of the sorts with spurious wake-ups at the barriers
         dsched::S().begin(rng.next(), (int)rng.below(dsched::STRATEGIES));
 #endif
         if (stable) { if (desc) tlx::stable_parallel_mergesort(b, b + n, typename T::Greater(), threads, mwmsa); else tlx::stable_parallel_mergesort(b, b + n, typename T::Less(), threads, mwmsa); }
@@ -94,9 +103,12 @@ static void one_sort(Rng& rng, size_t n, int shape, bool big) {
 #ifdef VERIF_DSCHED
         {
             dsched::Stats st = dsched::S().end();
+            verif::count("spurious_wakeups_injected", dsched::S().spurious_wakeups);
             if (dsched::S().serial()) { verif::distinct(st.hash); verif::count("schedule_steps", st.steps); verif::count("controlled_schedules"); }
         }
 #endif
+        if (unsigned c = g_cmp_on_moved_from.exchange(0))
+            verif::fail(key + "comparator-called-on-moved-from-element", what + ": the comparator was called " + std::to_string(c) + " time(s) with a moved-from element (a value that is not an element of the input)");
         if (T::tracked) {
             size_t live1 = verif::Ledger::get().live_count();
             if (live1 != live0) verif::fail("C06:lifetime:temporaries-alive-after-return", what + ": " + std::to_string(live1 - live0 > live1 ? 0 : live1 - live0) + " temporary element copies are still alive after the sort returned (" + std::to_string(live0) + " -> " + std::to_string(live1) + ")");
